@@ -119,25 +119,28 @@ def schemaFromData : Store → Option Schema
     | none => none
     | some s => (createField s (e.1.1, e.1.2.2.1) e.2.1).map (·.1)
 
-/-- `Engine.Open` + `LoadMetadataIndex` as far as the field set is concerned;
-    `n` = number of bytes of `fields.idxl` that are in the file (a crash in the
-    middle of an append leaves a prefix).  `none` = the shard does not open. -/
-def openFields (st : PState) (n : Nat) : Option PState :=
+/-- `NewMeasurementFieldSet.load` (called by `Engine.Open`); `n` = number of bytes
+    of `fields.idxl` that are in the file (a crash in the middle of an append
+    leaves a prefix) -/
+def loadFields (st : PState) (n : Nat) : PState :=
   let s0 := st.idx.getD []
-  -- NewMeasurementFieldSet.load
-  let st1 : PState :=
-    match st.log with
-    | none => { st with mem := s0 }
-    | some recs =>
-      let recs' := cutLog recs n
-      if recs'.isEmpty then { st with mem := s0, log := none }      -- RemoveAll(changes file)
-      else writeToFile { st with mem := replay s0 recs'.flatten }
-  -- LoadMetadataIndex
-  if st1.mem.isEmpty then
-    match schemaFromData st1.data with
-    | some s => some (writeToFile { st1 with mem := s })
+  match st.log with
+  | none => { st with mem := s0 }
+  | some recs =>
+    if (cutLog recs n).isEmpty then { st with mem := s0, log := none }      -- RemoveAll(changes file)
+    else writeToFile { st with mem := replay s0 (cutLog recs n).flatten }
+
+/-- `Engine.LoadMetadataIndex`: an empty field set is rebuilt from the stored keys
+    and saved; `none` = the shard does not open -/
+def loadMetadataIndex (st : PState) : Option PState :=
+  if st.mem.isEmpty then
+    match schemaFromData st.data with
+    | some s => some (writeToFile { st with mem := s })
     | none => none
-  else some st1
+  else some st
+
+/-- `Engine.Open` + `LoadMetadataIndex` as far as the field set is concerned -/
+def openFields (st : PState) (n : Nat) : Option PState := loadMetadataIndex (loadFields st n)
 
 /-- clean `Shard.Close`: `MeasurementFieldSet.Close` snapshots iff the change log exists -/
 def closeFields (st : PState) : PState :=
@@ -202,13 +205,17 @@ def pDrop (st : PState) (m : String) : PState :=
     appendLog { st with mem := dropMeas st.mem m, data := data', series := st.series.filter (· != m) } [.del m]
   else st
 
+/-- the stored value has another type than the schema records for its field -/
+def mistyped (mem : Schema) (e : EKey × Val) : Bool :=
+  match mem.lookup (e.1.1, e.1.2.2.1) with
+  | some t => t != e.2.1
+  | none => false
+
 /-- what a cursor read returns: the stored values of fields the schema knows, in
     the schema's type; `none` = some stored value has another type than the
     schema says (the real cursor panics) -/
 def visible (mem : Schema) (d : Store) : Option Store :=
-  if d.any (fun e => match mem.lookup (e.1.1, e.1.2.2.1) with
-                     | some t => t != e.2.1
-                     | none => false) then none
+  if d.any (mistyped mem) then none
   else some (d.filter (fun e => (mem.lookup (e.1.1, e.1.2.2.1)).isSome))
 
 /-! ### operations of a C10 case -/
